@@ -415,6 +415,70 @@ class Gen:
         return {"family": "REUSE%d" % side, "flavour": flavour, "shape": shape, "base": base, "base_side": base_side,
                 "sched": sched, "expect": m.t, "reused": reused}
 
+    def case_swap(self, flavour, shape, nops):
+        """SWAP: one side exchanges the names of two (or rotates three) synchronised files through a temporary name inside
+        one window - rename a->t, b->a, t->b - while the other side creates and edits files of its own.  Every single
+        rename is hazard HF by the letter (its source or target is touched by another op of the window), but the pinned
+        engine handles this particular shape (measured: see DESIGN 8.3), so it is carved out as a family of its own."""
+        rng = self.rng
+        base_side = rng.randrange(2)
+        base, m = self.base_tree(base_side, 0)
+        # base: 3-5 files at the top level or in one folder
+        folder = None
+        if rng.random() < 0.5:
+            folder = self.names.fresh("b")
+            op = {"side": base_side, "op": "mkdir", "path": folder}
+            assert m.apply(op)
+            op["obj"] = m.new_obj(folder)
+            base.append(op)
+        files = []
+        for _ in range(rng.randrange(3, 6)):
+            name = self.names.fresh("b")
+            path = (folder + "/" + name) if folder and rng.random() < 0.7 else name
+            op = {"side": base_side, "op": "create", "path": path, "data": self.contents.fresh(base_side)}
+            assert m.apply(op)
+            op["obj"] = m.new_obj(path)
+            base.append(op)
+            files.append(path)
+        x = rng.randrange(2)
+        y = 1 - x
+        k = rng.choice((2, 2, 3))
+        ring = rng.sample(files, k)
+        par = m.parent(ring[0])
+        tname = self.names.fresh("lr"[x])
+        t = (par + "/" + tname) if par else tname
+        swap_ops = [{"side": x, "op": "rename", "path": ring[0], "to": t}]
+        for i in range(1, k):
+            swap_ops.append({"side": x, "op": "rename", "path": ring[i], "to": ring[i - 1]})
+        swap_ops.append({"side": x, "op": "rename", "path": t, "to": ring[k - 1]})
+        other = []
+        own = []
+        for _ in range(max(0, nops - len(swap_ops))):
+            if own and rng.random() < 0.4:
+                other.append({"side": y, "op": "write", "path": rng.choice(own), "data": self.contents.fresh(y)})
+            else:
+                name = self.names.fresh("lr"[y])
+                own.append(name)
+                other.append({"side": y, "op": "create", "path": name, "data": self.contents.fresh(y)})
+        # interleave keeping each side's order
+        seq = []
+        a, b = list(swap_ops), list(other)
+        while a or b:
+            src = a if (a and (not b or rng.random() < 0.5)) else b
+            seq.append(src.pop(0))
+        sched = []
+        for op in seq:
+            if op["op"] == "create":
+                assert m.apply(op), op
+                op["obj"] = m.new_obj(op["path"])
+            else:
+                op["obj"] = m.obj.get(op["path"])
+                assert m.apply(op), op
+            sched.append(["U", op])
+            sched.extend(g for g in self.gap(shape) if g != ["Q"])      # the whole exchange stays inside one window
+        return {"family": "SWAP", "flavour": flavour, "shape": shape, "base": base, "base_side": base_side, "sched": sched,
+                "expect": m.t, "ring": k}
+
     def case_disj(self, flavour, shape, nops, weights=None, seek=False):
         """DISJ: both sides change, but each side only touches objects it owns (ownership by top-level entry)."""
         rng = self.rng
